@@ -495,9 +495,10 @@ import c10s6      # noqa: E402  (needs the classes above)
 import c10s11     # noqa: E402
 import c10p1      # noqa: E402
 import c10t2      # noqa: E402
+import c10s14     # noqa: E402
 
 PROPERTY = Property(
     pid="C10",
-    streams=[TheoremStream(), Theorem2Stream(), StyleTableStream(), annotcorr.CommentAtStream(), annotcorr.CreateCommentStream(), CliStream(), SeedStream()] + c10s6.STREAMS + c10s11.STREAMS + c10p1.STREAMS + c10t2.STREAMS,
+    streams=[TheoremStream(), Theorem2Stream(), StyleTableStream(), annotcorr.CommentAtStream(), annotcorr.CreateCommentStream(), CliStream(), SeedStream()] + c10s6.STREAMS + c10s11.STREAMS + c10p1.STREAMS + c10t2.STREAMS + c10s14.STREAMS,
     assumptions=[],
 )
